@@ -208,7 +208,7 @@ Proof.
   destruct (wdayset_correct rl (c_ii s) y y (c_month s) (c_day s) F ltac:(rewrite Nwk; exact Hwk) Av
               ltac:(rewrite Ao; exact Hi)) as (ds & suf & E1 & Eds & _).
   rewrite Ao in E1, Eds. fold st in E1, Eds.
-  assert (EL : st + week_rest (weekday_of_ord (jan1 y)) (wkst rl) st = en).
+  assert (EL : st + Z.min (week_rest (weekday_of_ord (jan1 y)) (wkst rl) st) (max_ord + 1 - (jan1 y + st)) = en).
   { unfold week_rest. rewrite <- wd_shift. replace (jan1 y + st) with (cur k) by (unfold st; lia).
     rewrite Nwk, Ew. unfold st, en. lia. }
   rewrite EL in E1, Eds.
@@ -444,8 +444,9 @@ Proof.
   assert (EB : sp_ord0 r - back = ws0 r) by reflexivity.
   assert (EW0 : wlo r 0 = ws0 r) by (unfold wlo; lia).
   assert (PRO : exists y0 m0 d0,
-     (if negb (back =? 0) && (1 <=? sp_ord0 r - back)
-      then let '(y', m', d') := ymd_of_ord (sp_ord0 r - back) in (y', m', d', r_wkst r)
+     (if negb (back =? 0)
+      then let '(y', m', d') := ymd_of_ord (Z.max (sp_ord0 r - back) 1) in
+           (y', m', d', weekday_of_ord (Z.max (sp_ord0 r - back) 1))
       else (r_y r, r_m r, r_d r, weekday (r_y r) (r_m r) (r_d r))) = (y0, m0, d0, r_wkst r) /\
      valid_ymd y0 m0 d0 = true /\ ord_of_ymd y0 m0 d0 = ws0 r).
   { destruct (back =? 0) eqn:E0; cbn [negb andb].
@@ -453,10 +454,10 @@ Proof.
       + f_equal. unfold back, weekday in *. fold (sp_ord0 r) in *.
         pose proof (weekday_of_ord_range (sp_ord0 r)). lia.
       + fold (sp_ord0 r). lia.
-    - replace (1 <=? sp_ord0 r - back) with true by lia. rewrite EB.
+    - replace (Z.max (sp_ord0 r - back) 1) with (ws0 r) by lia.
       pose proof (ymd_of_ord_valid (ws0 r) ltac:(unfold back in *; lia)) as VV.
       destruct (ymd_of_ord (ws0 r)) as [[y0 m0] d0]. destruct VV as [V1 V2].
-      exists y0, m0, d0. split; [reflexivity|]. split; assumption. }
+      exists y0, m0, d0. split; [rewrite <- EW0, (wlo_weekday r 0 Hwk); reflexivity|]. split; assumption. }
   destruct PRO as (y0 & m0 & d0 & EP & V0 & O0).
   destruct (index_in_year _ _ _ V0) as (I1 & _ & Hy0).
   (* the week start lies in the start's year or the one before *)
